@@ -60,7 +60,7 @@ package bbc
 
 // A new incoming transmission exists only for a fragment with the start bit; it takes id, payload, sequence number
 // and end mark from that fragment.
-// govc:func NewIncomingTransmission property C12
+// govc:func NewIncomingTransmission property C12 C04
 //@ assigns nothing
 //@ ensures (err == nil) == f.StartBit()
 //@ ensures err == nil ==> t != nil && t.TransmissionID == f.TransmissionID() && sameSlice(t.Payload, f.Payload) && t.finished == f.EndBit() && t.prevSequenceNo == f.SequenceNumber()
@@ -68,7 +68,7 @@ package bbc
 // The receiver accepts a fragment only if it belongs to this unfinished transmission, carries exactly the successor
 // (mod 16) of the previous sequence number and no start bit; then the payload grows by exactly the fragment's bytes.
 // Anything else (loss, duplicate, reordering of fewer than 16 fragments) is an error and changes nothing.
-// govc:func (*IncomingTransmission).ReadFragment property C12
+// govc:func (*IncomingTransmission).ReadFragment property C12 C04
 //@ assigns t.Payload, t.finished, t.prevSequenceNo
 //@ ensures (err == nil) == (!old(t.finished) && f.TransmissionID() == old(t.TransmissionID) && f.SequenceNumber() == (old(t.prevSequenceNo) + 1) % 16 && !f.StartBit())
 //@ ensures err != nil ==> sameSlice(t.Payload, old(t.Payload)) && t.finished == old(t.finished) && t.prevSequenceNo == old(t.prevSequenceNo)
